@@ -2037,9 +2037,10 @@ def _compute_event_comparison_score(
             event_copy.arguments, ref_event.arguments
         )
 
-    # Take into account the priority of the flow
-    if priority:
-        match_score *= priority
+    # Take into account the priority of the flow. A match stays a match, also for the
+    # lowest priority 0.0, it just loses against all the others.
+    if priority is not None and match_score > 0.0:
+        match_score = max(match_score * priority, sys.float_info.min)
 
     return match_score
 
